@@ -30,6 +30,8 @@ def _alphabets(tier):
     al["Amid"] = [H(3, a, r) for a in (2, 3, 4) for r in (0, 1, 5)] + [H(3, 7, 0), H(3, 0, 0)]
     # remainders differing in the bit that a resize moves into the quotient
     al["Asplit"] = [H(3, a, r) for a in (0, 3, 7) for r in (1, hi | 1, 2)] + [H(3, 4, hi)]
+    # a 512-slot table: slot indices above 256, two runs sharing a cluster there, the last slots (wrap-around)
+    al["Abig"] = [H(9, 300, 1), H(9, 300, 2), H(9, 300, 3), H(9, 301, 1), H(9, 511, 1), H(9, 511, 2), H(9, 0, 1), H(9, 257, 7)]
     # 18 hashes spread over a 16/32-slot table (used pre-filled, see configs)
     al["Afill"] = [H(4, a, r) for a in range(16) for r in (1,)]
     if tier == "thorough":
@@ -74,8 +76,8 @@ class QFSystem(System):
         cfgs = []
         als = _alphabets(tier)
         for name, al in als.items():
-            if name == "Afill":
-                continue  # only used pre-filled (below)
+            if name in ("Afill", "Abig"):
+                continue  # used with their own quotient (below)
             cfgs.append({"alpha": name, "auto": False, "ops": [], "via_key": False, "depth": None, "cost": 30 * 2 ** len(al)})
         # through the key interface (a supplied hash function must survive resizes)
         cfgs.append({"alpha": "Awrap", "auto": False, "ops": [], "via_key": True, "depth": None, "cost": 30 * 2**11})
@@ -92,6 +94,7 @@ class QFSystem(System):
         # move 5 hashes in and out and resize by hand while automatic expansion is on
         cfgs.append({"alpha": "Afill", "auto": True, "ops": ["resize"], "via_key": False, "depth": None, "prefill": 13, "q0": 4,
                      "cost": 90 * 2**9})
+        cfgs.append({"alpha": "Abig", "auto": False, "ops": [], "via_key": False, "depth": None, "q0": 9, "cost": 60 * 2**8})
         if prop in ("C14", "C19") and tier == "quick":
             # these are state oracles: a subset of the driver suffices on every change
             cfgs = [c for c in cfgs if c["alpha"] in ("A0", "Awrap", "Asplit")]
